@@ -78,6 +78,14 @@ Theorem C15_link_locations :
     Forall2 Qeq (coord_at g (layout_idx g c)) (coord_at h (layout_idx h c)).
 Proof. exact link_locations. Qed.
 
+(** A static input (Input.pull_data with its cache) read any number of times delivers, every time,
+    exactly what a single conversion of the source data delivers (to which C15_link_transform
+    applies): the transformation is applied once per delivered data set, never to cached data. *)
+Theorem C15_static_reads_stable :
+  forall (A : Type) (g h : grid) (d : arr A) (n : nat),
+    static_reads g h None d n = repeat (link_deliver g h d) n.
+Proof. intros A. exact (@static_reads_stable A). Qed.
+
 (** ** Non-vacuity: a 3x4 point grid in F layout and the same locations reversed / y decreasing *)
 Definition ex_axes : list (list Q) := [[0#1; 1#1; 3#1]; [5#1; 7#1; 8#1; 12#1]]%Q.
 Definition ex_g : grid := mkgrid ex_axes [true; true] false false true 0 false.
@@ -125,5 +133,11 @@ Example C15_link_locations_nonvacuous :
   coord_at ex_g [2; 1] = coord_at ex_h [2; 2].
 Proof. split; [repeat constructor|]. repeat split. Qed.
 
+Example C15_static_reads_stable_nonvacuous :
+  map (fun r => match r with LOk out => list_of_arr out | _ => [] end) (static_reads ex_g ex_h None ex_d 3) =
+  repeat [30; 31; 32; 20; 21; 22; 10; 11; 12; 0; 1; 2]%Z 3.
+Proof. vm_compute. reflexivity. Qed.
+
+Print Assumptions C15_static_reads_stable.
 Print Assumptions C15_link_transform.
 Print Assumptions C15_link_locations.
